@@ -12,7 +12,7 @@ use std::fmt::Write as _;
 use std::path::{Path, PathBuf};
 use std::process::Command;
 
-pub const RULE: &str = "Domain: generated programs. ok-crate: N = 500 | 5000 invocations of langid! lang! script! region! variant! locale! (single literal) and langids! langid_slice! locales! (2-4 literals, with and without trailing comma) on literals the reference model classifies as well-formed (proptest grammar strategies with random case / separator masks, und, every extension shape and order incl. tfields followed by -u-/-x-, duplicated and unsorted variants, boundary lengths), each compared at run time with parsing the same literal (==, to_string, hash, per element for lists) inside catch_unwind. bad-crate: M = 400 | 3000 invocations, one per function, on literals the reference puts in must-reject (near-miss mutations, wrong lengths / character classes, foreign and repeated singletons, non-ASCII look-alikes, the empty string, well-formed literals padded with ASCII / Unicode whitespace or control characters or with one letter replaced by a character that case-folds to ASCII; either-zone literals are never used), built with cargo check --message-format=json; list macros get exactly one ill-formed element. Oracle: the ok-crate compiles (a compile error is mapped through the expansion chain to its invocation, reported, the invocation removed and the crate rebuilt) and every comparison is equal with no run-time panic; in the bad-crate the set of invocations carrying an error equals the set of all invocations. Non-trivial (ok) = literal with an extension, non-canonical case or separator, und, >= 2 variants or a list macro; every bad invocation counts. Distinct = hash set over (macro, literals).";
+pub const RULE: &str = "Domain: generated programs. ok-crate: N = 500 | 5000 invocations of langid! lang! script! region! variant! locale! (single literal) and langids! langid_slice! locales! (2-4 literals, with and without trailing comma) on literals the reference model classifies as well-formed, spelled as plain, raw (r\"..\", r#\"..\"#) or escaped (\\x.., \\u{..}) string literals (proptest grammar strategies with random case / separator masks, und, every extension shape and order incl. tfields followed by -u-/-x-, duplicated and unsorted variants, boundary lengths), each compared at run time with parsing the same literal (==, to_string, hash, per element for lists) inside catch_unwind. bad-crate: M = 400 | 3000 invocations, one per function, on literals the reference puts in must-reject (near-miss mutations, wrong lengths / character classes, foreign and repeated singletons, non-ASCII look-alikes, the empty string, well-formed literals padded with ASCII / Unicode whitespace or control characters or with one letter replaced by a character that case-folds to ASCII; either-zone literals are never used), built with cargo check --message-format=json; list macros get exactly one ill-formed element. Oracle: the ok-crate compiles (a compile error is mapped through the expansion chain to its invocation, reported, the invocation removed and the crate rebuilt) and every comparison is equal with no run-time panic; in the bad-crate the set of invocations carrying an error equals the set of all invocations. Non-trivial (ok) = literal with an extension, non-canonical case or separator, und, >= 2 variants or a list macro; every bad invocation counts. Distinct = hash set over (macro, literals).";
 
 #[derive(Clone, Debug, PartialEq, Eq, Hash)]
 pub struct MCase {
@@ -72,8 +72,30 @@ pub fn verdict(mac: &str, lit: &str) -> Option<bool> {
     }
 }
 
+/// source spelling of a string literal: plain, raw, raw with hashes, or with the first / last
+/// character written as an escape - all denote the same string value
+fn spell(l: &str) -> String {
+    let plain = format!("{l:?}");
+    let raw_ok = !l.is_empty() && l.chars().all(|c| c != '"' && c != '\\' && c != '\r' && !c.is_control());
+    match hash_str(l) % 7 {
+        1 if raw_ok => format!("r\"{l}\""),
+        2 if raw_ok && !l.contains("\"#") => format!("r#\"{l}\"#"),
+        3 if l.is_ascii() && !l.is_empty() => {
+            let b = l.as_bytes();
+            format!("\"\\x{:02x}{}\"", b[0], &format!("{:?}", &l[1..])[1..format!("{:?}", &l[1..]).len() - 1])
+        }
+        4 if !l.is_empty() => {
+            let last = l.chars().last().unwrap();
+            let head = &l[..l.len() - last.len_utf8()];
+            let h = format!("{head:?}");
+            format!("\"{}\\u{{{:x}}}\"", &h[1..h.len() - 1], last as u32)
+        }
+        _ => plain,
+    }
+}
+
 fn invocation(c: &MCase) -> String {
-    let args: Vec<String> = c.lits.iter().map(|l| format!("{l:?}")).collect();
+    let args: Vec<String> = c.lits.iter().map(|l| spell(l)).collect();
     let mut a = args.join(", ");
     if c.trailing_comma {
         a.push(',');
